@@ -94,6 +94,19 @@ fn main() {
             let path = args.get(2).unwrap_or_else(|| usage());
             std::process::exit(minimise::replay_file(path));
         }
+        "jobs" => {
+            // debugging aid: print the job lines of one batch (with logs requested)
+            let base: u64 = args[2].parse().unwrap();
+            let k: usize = args[3].parse().unwrap();
+            let batch: usize = args[4].parse().unwrap();
+            let total: usize = args[5].parse().unwrap();
+            let dense = args.get(6).map_or(false, |s| s == "dense");
+            let b = if dense { controller::dense_base(base) } else { base };
+            for mut j in controller::batch_jobs_x(b, k, batch, total, dense) {
+                j.log = true;
+                println!("{}", serde_json::to_string(&j).unwrap());
+            }
+        }
         "clocktest" => {
             println!("clock seam works: {}", clock::selftest());
         }
